@@ -271,6 +271,35 @@ def main (args : List String) : IO UInt32 := do
     let r ← chkLoop (cfgOf c) (IO.FS.Stream.ofHandle ho) (IO.FS.Stream.ofHandle ht) out {} none 40
     out.putStrLn s!"STAT ops={r.k} groups={r.nGroups} events={r.nEvents} statechanges={r.nStateChange} div={r.nDiv} mon={r.nMon} x={r.nX} evhist={r.evHist.toList}"
     return 0
+  | ["diagnose"] =>
+    -- T1: list every cell of the regenerated tables that contradicts the reference (DESIGN.md §4.1)
+    let out ← IO.getStdout
+    let sh (o : Option String) : String := match o with | some s => "\"" ++ s ++ "\"" | none => "NULL"
+    for b in TableCheck.deviations256 TableCheck.g0OkAt do
+      out.putStrLn s!"CELL C02 g0 byte={b} stored={Generated.g0Stored.getD b false} value={Generated.g0.getD b 0} expected_stored={Reference.stored b} expected={Reference.g0Value b}"
+    for b in TableCheck.deviations256 TableCheck.narrowOkAt do
+      out.putStrLn s!"CELL C20 narrow byte={b} stored={Generated.narrowStored.getD b false} value={Generated.narrow.getD b 0} expected_stored={Reference.stored b} expected={Reference.narrowValue b}"
+    for (row, e) in TableCheck.eccDeviations TableCheck.eccOkAt do
+      out.putStrLn s!"CELL C11 ecc row={row} ecc={e} value={TableCheck.eccCell row e} expected={TableCheck.eccRef row e}"
+    for (row, e) in TableCheck.eccDeviations TableCheck.eccRangeOkAt do
+      out.putStrLn s!"CELL C11 eccrange row={row} ecc={e} value={TableCheck.eccCell row e} expected=<{Generated.countryCount}"
+    for t in [Reference.PtyTbl.name, .short, .long] do
+      for rbds in [false, true] do
+        for a in TableCheck.deviations256 (TableCheck.ptyOkAt t rbds) do
+          out.putStrLn s!"CELL C18 pty table={repr t} rbds={rbds} arg={a} value={sh ((TableCheck.genPty t rbds).getD a none)} expected={sh (Reference.ptyExpected t rbds a)}"
+        for a in TableCheck.deviations256 (TableCheck.ptyWidthOkAt t rbds) do
+          out.putStrLn s!"CELL C18 ptywidth table={repr t} rbds={rbds} arg={a} value={sh ((TableCheck.genPty t rbds).getD a none)} expected=fits-display"
+    for a in TableCheck.deviations256 TableCheck.nameOkAt do
+      out.putStrLn s!"CELL C18 cname arg={a} value={sh (TableCheck.nameAt a)} expected={sh (Reference.expectedName a)}"
+    for a in TableCheck.deviations256 TableCheck.isoOkAt do
+      out.putStrLn s!"CELL C18 ciso arg={a} name={sh (TableCheck.nameAt a)} value={sh (TableCheck.isoAt a)} expected={sh (Reference.expectedIso a)}"
+    for a in TableCheck.deviations256 TableCheck.isoShapeOkAt do
+      out.putStrLn s!"CELL C18 cisoshape arg={a} value={sh (TableCheck.isoAt a)} expected=two-letters"
+    for (i, j) in TableCheck.isoDistinctDeviations do
+      out.putStrLn s!"CELL C18 cisodistinct arg={i} other={j} value={sh (TableCheck.isoAt i)} expected=distinct-countries-have-distinct-codes"
+    out.putStrLn s!"CONST laneDependent={Generated.laneDependent} laneDependentNarrow={Generated.laneDependentNarrow} constsAgree={Generated.constsAgree} eccNarrowAgrees={Generated.eccCountryNarrowAgrees} lookupsNarrowAgree={Generated.lookupsNarrowAgree} capPs={Generated.capPs} capRt={Generated.capRt} capPtyn={Generated.capPtyn} afBytes={Generated.afBytes} countryCount={Generated.countryCount}"
+    out.putStrLn "DIAGNOSE-END"
+    return 0
   | _ =>
-    IO.eprintln "usage: rdsmodel run <u|n> <ops> | rdsmodel check <u|n> <ops> <trace>"
+    IO.eprintln "usage: rdsmodel run <u|n> <ops> | rdsmodel check <u|n> <ops> <trace> | rdsmodel diagnose"
     return 2
